@@ -49,7 +49,11 @@ MoreAtoms == {
   \* population-tagged
   PT(<<V0(1)>>, <<V0(2)>>, 1), PT(<<V0(2), V0(3)>>, <<>>, 1), PT(<<V0(1)>>, <<>>, 2),
   \* a population-tagged interventional term
-  PT(<<VIv(3, 0, <<<<1, 0>>>>)>>, <<VIv(2, 0, <<<<1, 0>>>>)>>, 1) }
+  PT(<<VIv(3, 0, <<<<1, 0>>>>)>>, <<VIv(2, 0, <<<<1, 0>>>>)>>, 1),
+  \* counterfactual (multi-world) terms: P(+V1 @ (-V2, +V3), V2) and P(-V1 @ (-V2, -V3) | V3)
+  \* (they have a meaning in the functional family only: the calculator group is validated with Fam = "F")
+  Pj(<<VIv(1, 2, <<<<2, 1>>, <<3, 2>>>>), V0(2)>>),
+  Pc(<<VIv(1, 1, <<<<2, 1>>, <<3, 1>>>>)>>, <<V0(3)>>) }
 Atoms == IF AtomSet = "small" THEN SmallAtoms ELSE SmallAtoms \cup MoreAtoms
 
 QAtoms == {[t |-> "Q", dom |-> <<2, 3>>, cod |-> <<1>>], [t |-> "Q", dom |-> <<1>>, cod |-> <<2>>]}
@@ -93,14 +97,14 @@ Spec == Init /\ [][Step]_vars
 
 \* design-level invariants on atoms: the reference rewrites are identities of probability calculus
 RefRewritesSound ==
-  (Check /\ depth = 0 /\ IsAtom(m)) =>
+  (Check /\ depth = 0 /\ IsAtom(m) /\ SingleWorld(m.p)) =>
      /\ \A q \in Perms(m.p.ch) : SameDen(m.p, RefChain(m.p, [i \in DOMAIN m.p.ch |-> m.p.ch[q[i]]]))
      /\ SameDen(m.p, RefFrac(m.p))
      /\ SameDen(m.p, RefBayes(m.p))
 \* constructors mean what they say: marginalising everything a conditional term depends on gives 1
 \* (sanity of Math for cond: sum over r of cond(r, a) over the remaining variables is 1 where defined)
 CondNormalised ==
-  (Check /\ m.op = "cond") =>
+  (Check /\ m.op = "cond" /\ SingleWorld(Math(m))) =>
      LET e == Math(m)  rest == MFree(m.a) \ ToSet(m.r) IN
      rest = {} \/ ~WellScoped(e) \/
      \A s \in Seeds : LET lhs == ST(SetToSeq(rest), e)
